@@ -8,6 +8,7 @@ import GoBT.Script.Classify
 import GoBT.Script.IndexReviewLib
 import GoBT.Props.C13
 import GoBT.Script.TokLemmas
+import GoBT.Script.Build
 namespace GoBT.C14
 open GoBT GoBT.Script
 
@@ -642,5 +643,41 @@ theorem undecodable_not_keybearing (s : Bytes) (h : (decodeParts s).2 = false) :
 /-- ✓gen — every index / slice expression in the current sources of bscript belongs to a function reviewed in
     GoBT/Script/IndexReviewLib.lean, with the number of expressions reviewed (a tripwire for model drift) -/
 theorem index_sites_reviewed_bscript : GoBT.Script.indexReviewBscriptOk = true := by decide +kernel
+
+/-! ### the data outputs the library builds itself (txoutput.go) -/
+
+/-- **The data output the library builds itself** (`CreateOpReturnOutput`, `Tx.AddOpReturnOutput`, `Tx.AddOpReturnPartsOutput`):
+    for every list of data items it can encode, the script is reported as data. -/
+theorem opreturn_output_is_data (parts : List Bytes) (s : Bytes) (h : opReturnScript parts = some s) :
+    scriptType s = some .nulldata ∧ isData s = true := by
+  unfold opReturnScript at h
+  cases hp : encodeParts parts with
+  | none => simp [hp] at h
+  | some p =>
+    simp [hp] at h
+    subst h
+    refine ⟨data_template_classified _ (Or.inr ⟨by simp, by simp⟩), ?_⟩
+    simp [isData, opRETURN]
+
+/-- the constructor refuses nothing below 2^32 bytes per item -/
+theorem opreturn_output_exists (parts : List Bytes) (h : ∀ p ∈ parts, p.length < 2 ^ 32) :
+    (opReturnScript parts).isSome = true := by
+  unfold opReturnScript
+  simp only [Option.isSome_map]
+  induction parts with
+  | nil => simp [encodeParts]
+  | cons p ps ih =>
+    have hp : p.length < 2 ^ 32 := h p (by simp)
+    have ih' := ih (fun q hq => h q (by simp [hq]))
+    cases he : encodeParts ps with
+    | none => simp [he] at ih'
+    | some r =>
+      have : (pushPrefix p.length).isSome = true := by
+        unfold pushPrefix
+        repeat' split
+        all_goals first | rfl | omega
+      cases hpp : pushPrefix p.length with
+      | none => simp [hpp] at this
+      | some pre => simp [encodeParts, hpp, he]
 
 end GoBT.C14
